@@ -272,6 +272,25 @@ def _c20_floods(lines, seed, tier):
         c["key"] = c["key"] + "+hot"
         c["tags"] = list(c.get("tags") or []) + ["hot"]
         out.append(json.dumps(c) + "\n")
+    # ... and variants in which the looked-up pairs SURVIVE an eviction: at the model's capacity one fresh pair pushes out the
+    # least recently used of the two, at the production capacity the pairs are looked up between floods that fill the cache
+    # to just below its capacity and then push it over (methods of pointers and promoted fields in every such sample)
+    strata = [[l for l in lines if '"PName"' in l or '"AName"' in l],
+              [l for l in lines if '"S10"' in l or '"S12"' in l or '"S11"' in l], lines]
+    k = 30 if tier == "quick" else 200
+    for st in strata:
+        for l in rnd.sample(st, min(len(st), k)):
+            for variant in (0, 1):
+                c = json.loads(l)
+                ops = c["ops"]
+                if variant == 0:
+                    c["ops"] = ops + ops[:1] + [{"flood": 1}] + ops[:1] + ops + [{"flood": 1}] + ops[-1:] + ops
+                else:
+                    c["cap"] = 1000
+                    c["ops"] = [{"flood": 990}] + ops + [{"flood": 60}] + ops + [{"flood": 150}] + ops
+                c["key"] = c["key"] + "+survive%d" % variant
+                c["tags"] = list(c.get("tags") or []) + ["survivor"]
+                out.append(json.dumps(c) + "\n")
     return out
 
 
